@@ -18,7 +18,8 @@ def run(ctx):
         "field operations of the base fields agree with Z/p on canonical residues (C07, C08): the model runs on zp_ops p",
         "model instantiated at B = E for eval/eval_many and F = E for mul_acc; extension fields and the B != E paths are covered by the falsifier only",
         "serial (non-`concurrent`) code paths of get_power_series, get_power_series_with_offset, add_in_place, mul_acc, batch_inversion",
-        "uninit_vector contents are never read before being written (the model starts poly_from_roots / power series from zeros)",
+        "uninit_vector contents are never read before being written: proved for poly_from_roots (C20_poly_from_roots_spec, arbitrary `init`) and "
+        "fill_power_series (any initial content of the right length); batch_inversion writes every result slot in its first loop",
         "usize arithmetic on lengths does not overflow (a Vec holds at most isize::MAX bytes)",
     ]
     ctx.audit_sources()
@@ -64,3 +65,14 @@ def run(ctx):
             ctx.ob(f"falsifier-ran:{profile}", seen_summary or nfail > 0, f"rc={rc}: {out[-200:]}")
             ctx.notes.setdefault("falsifier", {})[profile] = {"budget": budget, "failures": nfail}
     ctx.trusted.insert(0, "Coq 8.16.1 kernel + vm_compute (no native_compute); Print Assumptions under every theorem")
+    ctx.trusted.append("hand-written model coq/Model/Polynom.v (not generated from the Rust source): tied to /repo's current source by the per-run "
+                       "correspondence of every modelled function on the three base fields")
+    ctx.notes["proved_for_every_field_and_length"] = (
+        "eval, eval_many, add, sub, mul_by_scalar, mul, degree_of, remove_leading_zeros, div (+remainder layout, exact panic domain), "
+        "syn_div/syn_div_in_place (+remainder layout, exact panic domain), syn_div_roots_in_place (+panic domain), poly_from_roots "
+        "(independent of the uninitialised content), interpolate (distinct xs incl. 0; debug and release panic domains), batch_inversion, "
+        "get_power_series(_with_offset), add_in_place, mul_acc")
+    ctx.notes["tested_only"] = (
+        "interpolate_batch (unbounded spec not proved; bounded GF(7) agreement theorems + correspondence + falsifier), interpolate o eval_many = id, "
+        "exact-division corollaries, extension fields and B != E instantiations (falsifier), `concurrent` feature variants (other property)")
+    ctx.notes["defects_repaired"] = "notes/C20.findings.json: F20a interpolate panics on X = 0; F20b mul([],[]); F20c div([],[c]); F20d get_power_series(_,0)"
